@@ -38,6 +38,8 @@ type State struct {
 	loopHeads    map[*ssa.BasicBlock]*State
 	euclidSeen   map[string]bool
 	havockedPrefixes []string
+	lockSnaps        map[string]*State
+	lastLockSnap     *State
 }
 
 type rangeIter struct {
@@ -61,6 +63,13 @@ func (st *State) clone() *State {
 		}
 	}
 	n.havockedPrefixes = append([]string{}, st.havockedPrefixes...)
+	n.lastLockSnap = st.lastLockSnap
+	if st.lockSnaps != nil {
+		n.lockSnaps = make(map[string]*State, len(st.lockSnaps))
+		for k, v := range st.lockSnaps {
+			n.lockSnaps[k] = v
+		}
+	}
 	n.asm = st.asm[:len(st.asm):len(st.asm)]
 	n.locals = make(map[*ssa.Alloc]Value, len(st.locals))
 	for k, v := range st.locals {
